@@ -347,6 +347,12 @@ func relayAgentOpts6(rng *rand.Rand) []pkt.Opt6 {
 	if rng.Intn(6) == 0 {
 		o = append(o, pkt.O6(80, net.ParseIP("2001:db8:80::1").To16()))
 	}
+	if rng.Intn(4) == 0 {
+		// Relay Source Port (135, RFC 8357): the port of the relay one hop further downstream (0 = none);
+		// the reply still goes to where this datagram came from
+		port := []uint16{0, 547, 1067, 40547, uint16(1024 + rng.Intn(60000))}[rng.Intn(5)]
+		o = append(o, pkt.O6(135, []byte{byte(port >> 8), byte(port)}))
+	}
 	rng.Shuffle(len(o), func(i, j int) { o[i], o[j] = o[j], o[i] })
 	return o
 }
